@@ -231,18 +231,28 @@ def _inner(argv):
     by_sig = {}
     for d in unknown:
         by_sig.setdefault(d.get("sig", d.get("kind")), []).append(d)
-    for sig, ds in list(by_sig.items())[:40]:
-        d = ds[0]
+    sig_items = list(by_sig.items())
+    GATE = 48      # signatures re-checked in fresh processes; any beyond that are reported unchecked (never dropped)
+
+    def _gate(item):
+        sig, ds = item
         try:
-            again = recheck_in_fresh_process(check_id, tier, d["case"])
+            return recheck_in_fresh_process(check_id, tier, ds[0]["case"])
         except Exception as e:
-            again = [{"kind": "recheck-crashed", "sig": "recheck-crashed", "detail": repr(e)}]
+            return [{"kind": "recheck-crashed", "sig": "recheck-crashed", "detail": repr(e)}]
+    from concurrent.futures import ThreadPoolExecutor
+    with ThreadPoolExecutor(8) as tp:
+        agains = list(tp.map(_gate, sig_items[:GATE]))
+    for (sig, ds), again in zip(sig_items[:GATE], agains):
+        d = ds[0]
         if any(x.get("sig", x.get("kind")) == sig for x in again):
             confirmed.append((d, len(ds)))
         elif again and again[0].get("kind") == "recheck-crashed":
             confirmed.append((d, len(ds)))
         else:
             flaky.append({"case": d.get("case"), "first": d, "again": again})
+    for sig, ds in sig_items[GATE:]:
+        confirmed.append((ds[0], len(ds)))
 
     viol_lines = []
     os.makedirs(os.path.join(VERIF, "replays"), exist_ok=True)
